@@ -28,6 +28,7 @@ META = {
     "design_ref": "4/C01",
 }
 LEVEL = "other"
+EXTRACTS = []
 
 
 def configs(tier):
